@@ -430,8 +430,9 @@ Proof.
     + lia.
     + intros t [<- | Ht]; [lia | auto].
     + destruct H3 as [H3 | [t [Ht H3]]].
-      * destruct (Nat.min_dec m (length s)) as [E | E]; rewrite E in H3; [left; auto|].
-        right. exists s. split; [left; reflexivity | auto].
+      * destruct (Nat.min_dec m (length s)) as [E | E].
+        -- left. rewrite H3. exact E.
+        -- right. exists s. split; [left; reflexivity | rewrite H3; exact E].
       * right. exists t. split; [right; auto | auto].
 Qed.
 
